@@ -592,12 +592,7 @@ def names_nonempty(P, R, rule='C20.GRD.5'):
     n = 0
 
     def nonempty_known(f, site, a):
-        for g in f.guards(site.bid):
-            l = g[0]
-            first = isinstance(l, dict) and ((l.get('k') == 'idx' and sx(l.get('base')) == sx(a) and const_of(l.get('index')) == 0) or (l.get('k') == 'un' and l.get('op') == '*' and sx(l.get('e')) == sx(a)))
-            if first and ((g[1] == '!=' and const_of(g[2]) == 0) or (g[1] == '==' and isinstance(const_of(g[2]), int) and const_of(g[2]) != 0)):
-                return True
-        return False
+        return any(rules.guard_says_nonempty(g, a) for g in f.guards(site.bid))
     for f in P.unit_fns(un):
         for s in f.calls('dlopen'):
             a = s.ev['args'][0] if s.ev['args'] else None
